@@ -132,6 +132,10 @@ def run_rules(prop, tier='quick', root=None):
     mod = importlib.import_module('sa.rules.' + prop.lower())
     try:
         mod.run(ctx)
+        # necessary condition of every property about "each IKE_SA / message / SA / connection": the state the analysed functions keep
+        # per object is not shared between objects (rule SS, sa.rules.common.no_shared_mutable_state; DESIGN.md 8.7 round 6)
+        from .rules import common as _common
+        _common.no_shared_mutable_state(ctx, 'SS')
     except Exception as ex:
         # a construct was already reported as a violation: the later rules could not be evaluated on this tree
         # (usually because they build on the construct that is gone); report what was found instead of hiding it
